@@ -12,6 +12,7 @@ CONSTANTS FieldKinds <- K_few
           Ascending = FALSE
           MsgIds <- M_two
           Sels <- Sel_none
+          StreamPieces <- P_none
           MaxGlobal = 0
           MaxScopes = 0
           MaxMsgAttrs = 0
